@@ -59,7 +59,9 @@ def encode(r, early, sig):
     return {"stop": sc, "hang": bool(o["hang"]), "callerWaiting": bool(o["pull_waiting"] or o["initial_waiting"]),
             "callerOutcome": outcome, "pendingTasks": len(o["pending_tasks"]),
             "sources": [{"started": s["started"], "exhausted": s["exhausted"], "aclose": s["aclose"]} for s in o["sources"]],
-            "hookCalls": o["hook_calls"], "trackedAtHook": o["hook_tracked"] or 0, "incremental": not r["plain"]}
+            "hookCalls": o["hook_calls"], "trackedAtHook": o["hook_tracked"] or 0, "incremental": not r["plain"],
+            # external operations (gates) the execution still awaited, uncancelled, at the quiescent point right after the stop
+            "uncancelledAtStop": len(o.get("uncancelled_at_stop") or [])}
 
 
 def explore_stops(req, early, sig, depth):
@@ -177,9 +179,13 @@ def run(tier: str, rd):
     r = run_tlc(rd, "SettledV", common.v_cfg(), env={"CASES": str(p)}, timeout=3000, heap="12g")
     ev.add_tlc("V: quiescent-state observations after every stop point vs Settled.tla (L1-L4)", r)
     clause_hits = {}
+    n_drift = {}
     for o in r.json_lines():
         rec = recs[o["viol"] - 1]
         m = rec["_meta"]
+        if o["clause"].startswith("drift"):
+            n_drift[o["clause"]] = n_drift.get(o["clause"], 0) + 1
+            continue
         key = f"{rec['stop']}/{o['clause']}"
         clause_hits[key] = clause_hits.get(key, 0) + 1
         sig = {"clause": o["clause"], "stop": rec["stop"], "early": m["early"], "signal": m["signal"], "plain": not rec["incremental"]}
@@ -191,6 +197,8 @@ def run(tier: str, rd):
         m = rec["_meta"]
         ev.case(None, nontrivial=rec["stop"] != "none" or rec["incremental"],
                 key=common.digest([m.get("query"), m.get("early"), m.get("signal"), m.get("sched"), m.get("seed")]))
+    for k, v in n_drift.items():
+        vd.note_drift(f"{k}: {v} runs (work the library settles in the background is not cancelled by a stop)", None)
     drift_early = sum(1 for rec in recs if rec["hookCalls"] == 1 and rec["_meta"]["hook_pending_all_tasks"] > 0)
     if drift_early:
         vd.note_drift(f"hook fired while {drift_early} runs still had cancelled-but-unfinished tasks (tracked sets were empty)", None)
